@@ -54,9 +54,26 @@ where ins (c : Int × V) : List (Int × V) → List (Int × V)
   | [] => [c]
   | d :: ds => if c.1 ≤ d.1 then c :: d :: ds else d :: ins c ds
 
+/-- the operation computes an interval end above `i64::MAX` on region `m`: its own interval, or
+the end of a stored cell (of `m` or of the merge operand) that it may have to look at -/
+def overflows (m : Region V) (op : Op V) : Bool :=
+  let cellOver (r : Region V) : Bool := r.any (fun c => decide (i64Max < c.1 + isize c.2))
+  cellOver m || (match op with
+    | .insert p v => decide (i64Max < p + isize v)
+    | .remove p n => decide (i64Max < p + n)
+    | .mergeWriteTop p n => decide (i64Max < p + (n : Int))
+    | .markInterval _ e n => decide (i64Max < e + (n : Int))
+    | .merge o => cellOver o
+    | _ => false)
+
+/-- some operation of the history (of a merge operand) computes an interval end above `i64::MAX` -/
+def runOverflows : Region V → List (Op V) → Bool
+  | _, [] => false
+  | r, op :: ops => overflows r op || (match stepI64 r op with | some r' => runOverflows r' ops | none => false)
+
 /-- a line item: a mutating operation (model op, spec op, name) or a read probe -/
 inductive Item (V : Type) where
-  | op (m s : Op V) (name : String) (otherImpl : Option String)
+  | op (m s : Op V) (name : String) (otherImpl : Option String) (operandOverflows : Bool)
   | get (p : Int) (n : Nat)
   | getu (p : Int)
 
@@ -81,32 +98,32 @@ def parseItem (c : Codec V) (j : Json) : Except String (Item V) := do
   | "merge" =>
     let wops ← mapM' (fun x => (parseSimpleOp c x).map (·.1)) (← arrF j "w")
     let ws := (strF j "ws").toOption
-    match run ([] : Region V) wops with
-    | some other => return .op (.merge other) (.merge (Spec.run [] wops)) "merge" ws
+    match runI64 ([] : Region V) wops with
+    | some other => return .op (.merge other) (.merge (Spec.run [] wops)) "merge" ws (runOverflows [] wops)
     | none => throw "history of the merge operand panics in the model"
   | _ =>
     let (op, name) ← parseSimpleOp c j
-    return .op op op name none
+    return .op op op name none false
 
 /-- walk through the history; returns the verdict -/
-def walk (c : Codec V) (dom : String) : List (Item V) → List String → Region V → Store V → Nat → String
-  | [], [], _, _, k => s!"ok {dom} steps{if k ≥ 20 then "20+" else if k ≥ 8 then "8+" else "lt8"}"
-  | [], _ :: _, _, _, _ => "bad more impl outputs than operations"
-  | _ :: _, [], _, _, _ => "bad fewer impl outputs than operations"
-  | .get p n :: items, impl :: impls, m, s, k =>
+def walk (c : Codec V) (dom : String) : List (Item V) → List String → Region V → Store V → Nat → Bool → String
+  | [], [], _, _, k, ov => s!"ok {dom} steps{if k ≥ 20 then "20+" else if k ≥ 8 then "8+" else "lt8"}{if ov then " end-above-i64max" else ""}"
+  | [], _ :: _, _, _, _, _ => "bad more impl outputs than operations"
+  | _ :: _, [], _, _, _, _ => "bad fewer impl outputs than operations"
+  | .get p n :: items, impl :: impls, m, s, k, ov =>
     let e := c.shw (Spec.read s p n)
     let mv := c.shw (get m p n)
     if impl != e then s!"spec class={dom}-get step={k} expected={e} impl={impl} model={mv}"
     else if impl != mv then s!"diff class={dom}-get step={k} model={mv} impl={impl}"
-    else walk c dom items impls m s (k + 1)
-  | .getu p :: items, impl :: impls, m, s, k =>
+    else walk c dom items impls m s (k + 1) ov
+  | .getu p :: items, impl :: impls, m, s, k, ov =>
     let sh : Option V → String := fun o => match o with | some v => c.shw v | none => "none"
     let e := sh (Spec.readUnsized s p)
     let mv := sh (getUnsized m p)
     if impl != e then s!"spec class={dom}-getu step={k} expected={e} impl={impl} model={mv}"
     else if impl != mv then s!"diff class={dom}-getu step={k} model={mv} impl={impl}"
-    else walk c dom items impls m s (k + 1)
-  | .op mop sop name other :: items, impl :: impls, m, s, k =>
+    else walk c dom items impls m s (k + 1) ov
+  | .op mop sop name other wov :: items, impl :: impls, m, s, k, ov =>
     -- the merge operand itself: model of its history vs the implementation's operand
     let otherBad : Option String := match mop, other with
       | .merge o, some ws => if showCells c o != ws then some s!"diff class={dom}-merge-operand step={k} model={showCells c o} impl={ws}" else none
@@ -114,15 +131,18 @@ def walk (c : Codec V) (dom : String) : List (Item V) → List String → Region
     match otherBad with
     | some v => v
     | none =>
-    let mres := step m mop
+    let mres := stepI64 m mop
     let mstr := match mres with | some r => showCells c r | none => "panic"
     if Spec.pre mop then
       let s' := Spec.step s sop
       let e := showCells c (sortCells s')
-      if impl != e then s!"spec class={dom}-{name} step={k} expected={e} impl={impl} model={mstr}"
+      -- failures of the interval arithmetic next to i64::MAX get their own classes
+      let cls := if overflows m mop || wov then (if impl == "panic" then "panic-position-overflow" else "cells-position-overflow")
+                 else s!"{dom}-{name}"
+      if impl != e then s!"spec class={cls} op={dom}-{name} step={k} expected={e} impl={impl} model={mstr}"
       else if impl != mstr then s!"diff class={dom}-{name} step={k} model={mstr} impl={impl}"
       else match mres with
-        | some r => walk c dom items impls r s' (k + 1)
+        | some r => walk c dom items impls r s' (k + 1) (ov || overflows m mop || wov)
         | none => "bad unreachable"
     else
       -- an emptied BTreeMap (root node still allocated) panics on an inverted range, see the model
@@ -131,13 +151,13 @@ def walk (c : Codec V) (dom : String) : List (Item V) → List String → Region
       if emptiedMapPanic then s!"ok {dom} modelonly panic-emptied-map"
       else if impl != mstr then s!"diff class={dom}-{name}-nopre step={k} model={mstr} impl={impl}"
       else match mres with
-        | some r => walk c dom items impls r r (k + 1)   -- outside the hypotheses: resynchronise the store
+        | some r => walk c dom items impls r r (k + 1) ov   -- outside the hypotheses: resynchronise the store
         | none => if items.isEmpty then s!"ok {dom} modelonly panic" else "bad operations after a panic"
 
 def handleDom (c : Codec V) (dom : String) (j : Json) : Except String String := do
   let items ← mapM' (parseItem c) (← arrF j "ops")
   let impls ← mapM' (fun (x : Json) => x.getStr?) (← arrF j "impl")
-  return walk c dom items impls [] [] 0
+  return walk c dom items impls [] [] 0 false
 
 end
 
